@@ -161,6 +161,37 @@ def dtAddDays (v : IsoT.Value) (n : Int) : R IsoT.Value :=
   | .ok t => .ok ⟨t, v.off⟩
   | .error e => .error e
 
+/-- what a `@_takes_ascii` method may be handed: text (its code points), bytes, or a stream of which `rest` is
+    still unread -/
+inductive PyVal where
+  | str (codepoints : List Nat)
+  | bytes (bs : Bytes)
+  | streamStr (rest : List Nat)
+  | streamBytes (rest : Bytes)
+  deriving DecidableEq, Repr
+
+/-- `getattr(x, 'read', lambda: x)()`: a stream delivers EVERYTHING from its current position to its end (the
+    trusted meaning of `read()` with no argument); anything else is returned unchanged -/
+def readAll : PyVal → PyVal
+  | .streamStr r => .str r
+  | .streamBytes r => .bytes r
+  | v => v
+
+/-- `isinstance(x, six.text_type)` -/
+def isText : PyVal → Bool
+  | .str _ => true
+  | _ => false
+
+/-- `x.encode('ascii')` for text: `UnicodeEncodeError` on a code point ≥ 128 -/
+def encodeAscii : PyVal → R PyVal
+  | .str cps => if cps.any (fun c => decide (c ≥ 128)) then .error .UnicodeError else .ok (.bytes cps)
+  | v => .ok v
+
+/-- the wrapped method is modelled on bytes: what `_takes_ascii` passes on is a bytes object -/
+def asBytes : PyVal → R Bytes
+  | .bytes b => .ok b
+  | _ => .error .TypeError
+
 /-- `try: r except K: h` -/
 def tryExcept {α} (r : R α) (k : PyErr) (h : R α) : R α :=
   match r with
